@@ -88,9 +88,13 @@ func (env *Env) tr(e Expr) TV {
 				if env.fc.wfSeen == nil {
 					env.fc.wfSeen = map[string]bool{}
 				}
-				if !env.fc.wfSeen[w] {
-					env.fc.wfSeen[w] = true
-					env.fc.q.assume(w)
+				// ... of every heap that really arises: the state of a block that is not reached is still a
+				// term, and a fact about it would constrain the values it was built from on the paths that
+				// bypass the block (making them vacuous), so the fact is guarded by the current reach
+				g := env.fc.curReach
+				if !env.fc.wfSeen[g+"|"+w] {
+					env.fc.wfSeen[g+"|"+w] = true
+					env.fc.assumeReached(w)
 				}
 			}
 		}
@@ -730,6 +734,12 @@ func (env *Env) trCall(x ECall) TV {
 				env.fail("%s: arg %d has sort %s, want %s", x.Fn, i, v.S, sf.Args[i])
 			}
 			ts = append(ts, v.T)
+		}
+		if sf.Reads != "" {
+			if _, ok := eng.heaps[sf.Reads]; !ok {
+				eng.regHeap(sf.Reads, sf.ReadsSort)
+			}
+			ts = append([]string{env.st.get(sf.Reads)}, ts...)
 		}
 		if len(ts) == 0 {
 			return TV{T: x.Fn, S: sf.Result}
